@@ -1,18 +1,686 @@
-//! C10 — not built yet.
+//! C10 — CNAME chains are returned whole, in order, and loops end safely.
+//!
+//! Alias graphs whose links live in four kinds of source (authoritative local
+//! zone `a.`, non-authoritative local zone data under `n.`, cache entries under
+//! `k.`, upstream zone `u.`), every assignment of links to sources, straight
+//! chains, over-long chains and cycles, in all three resolver modes.
+
+use crate::c07::base_spec;
 use crate::common::*;
-use serde_json::Value;
+use crate::net::*;
+use crate::procpar::{self, JsonAcc};
+use crate::refzone::{FlatRec, FlatZone};
+use crate::ugen::*;
+use crate::util::*;
+use dns_resolver::util::types::ResolvedRecord;
+use dns_types::protocol::types::*;
+use dns_types::zones::types::{Zone, Zones, SOA};
+use serde_json::{json, Value};
+use std::collections::BTreeSet;
+use std::net::{IpAddr, Ipv4Addr, SocketAddr};
+use std::sync::Arc;
 
-pub fn run(_ctx: &Ctx) -> i32 {
-    eprintln!("C10: check not built");
-    2
+#[derive(Debug, Copy, Clone, Eq, PartialEq)]
+enum Src {
+    Auth,
+    NonAuth,
+    Cache,
+    Up,
+}
+const SRCS: [Src; 4] = [Src::Auth, Src::NonAuth, Src::Cache, Src::Up];
+
+fn src_dom(s: Src) -> &'static str {
+    match s {
+        Src::Auth => "a.",
+        Src::NonAuth => "n.",
+        Src::Cache => "k.",
+        Src::Up => "u.",
+    }
 }
 
-pub fn replay(_ctx: &Ctx, _v: &Value) -> i32 {
-    eprintln!("C10: check not built");
-    2
+#[derive(Debug, Copy, Clone, Eq, PartialEq)]
+enum Final {
+    HasType,
+    NoData,
+    Missing,
 }
 
-/// Entry point for `vcheck worker C10 <args...>` (child-process mode).
-pub fn worker(_args: &[String]) -> i32 {
-    2
+#[derive(Debug, Copy, Clone, Eq, PartialEq)]
+enum ModeK {
+    Local,
+    Recursive,
+    Forwarding,
+}
+
+#[derive(Debug, Clone)]
+struct Graph {
+    /// source of node i (node i is named c<i>.<dom>.)
+    srcs: Vec<Src>,
+    /// next[i] = Some(j): node i is an alias of node j
+    next: Vec<Option<usize>>,
+    fin: Final,
+    /// a conflicting cached alias for node 1 (zone data must win)
+    conflicting_cache: bool,
+    chase_in_reply: bool,
+}
+
+fn node_name(g: &Graph, i: usize) -> DomainName {
+    dn(&format!("c{}.{}", i, src_dom(g.srcs[i])))
+}
+
+fn final_data(qtype: RecordType, i: usize) -> RecordTypeWithData {
+    match qtype {
+        RecordType::TXT => txt(format!("final{i}").as_bytes()),
+        _ => a([10, 77, (i / 256) as u8, (i % 256) as u8]),
+    }
+}
+
+struct World {
+    universe: Arc<Universe>,
+    zones: Zones,
+    seed: Vec<ResourceRecord>,
+    /// all true records of the graph: (owner, data)
+    truth: BTreeSet<(DomainName, RecordTypeWithData)>,
+}
+
+fn soa_of(apex: &DomainName) -> SOA {
+    SOA {
+        mname: prepend(b"mname", apex),
+        rname: prepend(b"hostmaster", apex),
+        serial: 1,
+        refresh: 2,
+        retry: 3,
+        expire: 4,
+        minimum: 30,
+    }
+}
+
+fn build_world(g: &Graph, qtype: RecordType) -> World {
+    let mut p = GenParams::simple(1, NsStyle::InZoneGlue, 1);
+    p.chase_in_reply = g.chase_in_reply;
+    let mut u = build(&p);
+    // add the upstream zone u. (delegated from the root, in-zone glue)
+    let up = dn("u.");
+    let up_ns = dn("ns1.u.");
+    let up_addr = Ipv4Addr::new(10, 0, 7, 1);
+    let rec = |owner: &DomainName, data: RecordTypeWithData| FlatRec {
+        owner: owner.clone(),
+        wildcard: false,
+        data,
+        ttl: 300,
+    };
+    u.zones[0].recs.push(rec(&up, ns(&up_ns)));
+    u.zones[0].recs.push(rec(&up_ns, RecordTypeWithData::A { address: up_addr }));
+    let mut upzone = FlatZone {
+        apex: up.clone(),
+        soa: Some(soa_of(&up)),
+        recs: vec![rec(&up, ns(&up_ns)), rec(&up_ns, RecordTypeWithData::A { address: up_addr })],
+    };
+    let auth_apex = dn("a.");
+    let mut auth = Zone::new(auth_apex.clone(), Some(soa_of(&auth_apex)));
+    let mut nonauth = u.hints_zone();
+    let mut seed = Vec::new();
+    let mut truth = BTreeSet::new();
+    let mut put = |src: Src, owner: &DomainName, data: RecordTypeWithData,
+                   upzone: &mut FlatZone, auth: &mut Zone, nonauth: &mut Zone, seed: &mut Vec<ResourceRecord>| {
+        truth.insert((owner.clone(), data.clone()));
+        match src {
+            Src::Auth => auth.insert(owner, data, 300),
+            Src::NonAuth => nonauth.insert(owner, data, 300),
+            Src::Cache => seed.push(rr(owner, data, 300)),
+            Src::Up => upzone.recs.push(FlatRec {
+                owner: owner.clone(),
+                wildcard: false,
+                data,
+                ttl: 300,
+            }),
+        }
+    };
+    let n = g.srcs.len();
+    for i in 0..n {
+        let name = node_name(g, i);
+        match g.next[i] {
+            Some(j) => {
+                let target = node_name(g, j);
+                put(g.srcs[i], &name, cname(&target), &mut upzone, &mut auth, &mut nonauth, &mut seed);
+            }
+            None => match g.fin {
+                Final::HasType => {
+                    put(g.srcs[i], &name, final_data(qtype, i), &mut upzone, &mut auth, &mut nonauth, &mut seed);
+                    put(g.srcs[i], &name, final_data(qtype, i + 1000), &mut upzone, &mut auth, &mut nonauth, &mut seed);
+                }
+                Final::NoData => {
+                    // the name exists with another type
+                    let other = if qtype == RecordType::TXT {
+                        a([10, 78, 0, 1])
+                    } else {
+                        txt(b"other")
+                    };
+                    put(g.srcs[i], &name, other, &mut upzone, &mut auth, &mut nonauth, &mut seed);
+                }
+                Final::Missing => {}
+            },
+        }
+    }
+    if g.conflicting_cache && n > 1 {
+        // a cached alias for node 1 that disagrees with its real source
+        seed.push(rr(&node_name(g, 1), cname(&dn("elsewhere.k.")), 300));
+        seed.push(rr(&dn("elsewhere.k."), final_data(qtype, 4000), 300));
+    }
+    let up_idx = u.zones.len();
+    u.zones.push(upzone);
+    u.serving.entry(IpAddr::V4(up_addr)).or_default().push(up_idx);
+    let mut zones = Zones::new();
+    zones.insert(nonauth);
+    zones.insert(auth);
+    World {
+        universe: Arc::new(u),
+        zones,
+        seed,
+        truth,
+    }
+}
+
+/// The walk from node 0: indices in order until a node without alias, or
+/// until a node repeats (cycle).
+fn walk(g: &Graph) -> (Vec<usize>, bool) {
+    let mut seen = vec![false; g.srcs.len()];
+    let mut path = vec![0usize];
+    seen[0] = true;
+    let mut cur = 0;
+    loop {
+        match g.next[cur] {
+            None => return (path, false),
+            Some(j) => {
+                if seen[j] {
+                    path.push(j);
+                    return (path, true);
+                }
+                seen[j] = true;
+                path.push(j);
+                cur = j;
+            }
+        }
+    }
+}
+
+fn fwd_addr() -> SocketAddr {
+    SocketAddr::new(IpAddr::V4(Ipv4Addr::new(10, 9, 9, 9)), 53)
+}
+
+fn graph_json(g: &Graph, qtype: QueryType, mode: ModeK) -> Value {
+    json!({
+        "kind": "alias-graph",
+        "srcs": g.srcs.iter().map(|s| format!("{s:?}")).collect::<Vec<_>>(),
+        "next": g.next,
+        "fin": format!("{:?}", g.fin),
+        "conflicting_cache": g.conflicting_cache,
+        "chase_in_reply": g.chase_in_reply,
+        "qtype": u16::from(qtype),
+        "mode": format!("{mode:?}"),
+    })
+}
+
+fn graph_from_json(v: &Value) -> Option<(Graph, QueryType, ModeK)> {
+    let srcs = v["srcs"]
+        .as_array()?
+        .iter()
+        .map(|s| match s.as_str().unwrap_or("") {
+            "Auth" => Src::Auth,
+            "NonAuth" => Src::NonAuth,
+            "Cache" => Src::Cache,
+            _ => Src::Up,
+        })
+        .collect();
+    let next = v["next"]
+        .as_array()?
+        .iter()
+        .map(|n| n.as_u64().map(|x| x as usize))
+        .collect();
+    let fin = match v["fin"].as_str()? {
+        "HasType" => Final::HasType,
+        "NoData" => Final::NoData,
+        _ => Final::Missing,
+    };
+    let mode = match v["mode"].as_str()? {
+        "Local" => ModeK::Local,
+        "Recursive" => ModeK::Recursive,
+        _ => ModeK::Forwarding,
+    };
+    Some((
+        Graph {
+            srcs,
+            next,
+            fin,
+            conflicting_cache: v["conflicting_cache"].as_bool().unwrap_or(false),
+            chase_in_reply: v["chase_in_reply"].as_bool().unwrap_or(false),
+        },
+        QueryType::from(v["qtype"].as_u64()? as u16),
+        mode,
+    ))
+}
+
+fn rtype_of(q: QueryType) -> RecordType {
+    match q {
+        QueryType::Record(t) => t,
+        _ => RecordType::A,
+    }
+}
+
+/// Run one graph and judge it.
+fn check_graph(g: &Graph, qtype: QueryType, mode: ModeK) -> (Vec<(&'static str, String)>, RunResult, String) {
+    let world = build_world(g, rtype_of(qtype));
+    let q = question(&node_name(g, 0), qtype);
+    let mut spec = base_spec(world.universe.clone(), vec![Step::Seed(world.seed.clone()), Step::Ask(q.clone())]);
+    spec.zones = world.zones.clone();
+    spec.mode = match mode {
+        ModeK::Local => Mode::Local,
+        ModeK::Recursive => Mode::Recursive,
+        ModeK::Forwarding => Mode::Forwarding(fwd_addr()),
+    };
+    spec.explore_orders = false;
+    let res = run_once(&spec, &[]);
+    let mut out: Vec<(&'static str, String)> = Vec::new();
+    let ask = &res.asks[0];
+    let elapsed_ms = (ask.end_ns - ask.start_ns) / 1_000_000;
+    if elapsed_ms > 60_002 {
+        out.push(("over-budget", format!("took {elapsed_ms} ms of virtual time")));
+    }
+    let (path, cyclic) = walk(g);
+    let links: Vec<(DomainName, DomainName)> = path
+        .windows(2)
+        .map(|w| (node_name(g, w[0]), node_name(g, w[1])))
+        .collect();
+    let class;
+    match &ask.outcome {
+        Outcome::Panic(m) => {
+            out.push(("panic", format!("panicked: {m}")));
+            class = "panic".to_string();
+        }
+        Outcome::Err(e) => {
+            class = format!("error: {}", match e {
+                dns_resolver::util::types::ResolutionError::RecursionLimit => "recursion limit",
+                dns_resolver::util::types::ResolutionError::DuplicateQuestion { .. } => "duplicate question",
+                dns_resolver::util::types::ResolutionError::DeadEnd { .. } => "dead end",
+                dns_resolver::util::types::ResolutionError::Timeout => "timeout",
+                _ => "other",
+            });
+            // an error is acceptable for cycles, over-long chains, and when
+            // the mode cannot reach the rest of the chain
+            let unreachable = reachable_links(g, &path, mode) < links.len()
+                || (g.next[*path.last().unwrap()].is_none() && !final_reachable(g, &path, mode));
+            let nothing_local = matches!(g.fin, Final::Missing | Final::NoData) && links.is_empty();
+            let not_chased = matches!(qtype, QueryType::Record(RecordType::CNAME) | QueryType::Wildcard);
+            if !(cyclic || links.len() > 30 || unreachable || nothing_local || not_chased) {
+                // the whole chain is resolvable: a negative final answer may
+                // still be an error in local mode for non-authoritative data
+                let final_src = g.srcs[*path.last().unwrap()];
+                let negative = g.fin != Final::HasType;
+                if !(negative && matches!(final_src, Src::NonAuth | Src::Cache)) {
+                    out.push((
+                        "chain-not-returned",
+                        format!("resolvable chain of {} links ended in error {e}", links.len()),
+                    ));
+                }
+            }
+        }
+        Outcome::Ok(r) => {
+            let rrs = r.clone().rrs();
+            class = format!("ok: {} records", if rrs.len() > 8 { ">8".into() } else { rrs.len().to_string() });
+            if matches!(qtype, QueryType::Record(RecordType::CNAME) | QueryType::Wildcard) {
+                // not chased (locally); soundness + presence of the alias
+                for r in &rrs {
+                    if !world.truth.contains(&(r.name.clone(), r.rtype_with_data.clone())) {
+                        out.push(("unsound-record", format!("answer contains {} which is not in the graph", show_rr(r))));
+                    }
+                }
+                if g.next[0].is_some() && !rrs.iter().any(|r| r.name == q.name && r.rtype_with_data.rtype() == RecordType::CNAME) {
+                    out.push(("alias-record-missing", format!("answer {} lacks the alias record of the question name", show_rrs(&rrs))));
+                }
+            } else {
+                // split into leading CNAMEs and the rest
+                let k = rrs
+                    .iter()
+                    .take_while(|r| r.rtype_with_data.rtype() == RecordType::CNAME)
+                    .count();
+                let (chain, rest) = rrs.split_at(k);
+                // chain order: starts at the question name, each owner is the previous target
+                let mut expect_owner = q.name.clone();
+                let mut seen = BTreeSet::new();
+                for (i, c) in chain.iter().enumerate() {
+                    if c.name != expect_owner {
+                        out.push(("chain-order", format!("record #{i} {} is not owned by {}: {}", show_rr(c), show_name(&expect_owner), show_rrs(&rrs))));
+                        break;
+                    }
+                    if !seen.insert(c.name.clone()) {
+                        out.push(("alias-followed-twice", format!("alias {} occurs twice: {}", show_name(&c.name), show_rrs(&rrs))));
+                        break;
+                    }
+                    if i >= links.len() || links[i].0 != c.name || !matches!(&c.rtype_with_data, RecordTypeWithData::CNAME { cname } if *cname == links[i].1) {
+                        out.push(("chain-not-true", format!("record #{i} {} is not link #{i} of the true chain", show_rr(c))));
+                        break;
+                    }
+                    if let RecordTypeWithData::CNAME { cname } = &c.rtype_with_data {
+                        expect_owner = cname.clone();
+                    }
+                }
+                for r in rest {
+                    if r.rtype_with_data.rtype() == RecordType::CNAME {
+                        out.push(("chain-order", format!("CNAME {} after non-CNAME records: {}", show_rr(r), show_rrs(&rrs))));
+                    } else if !r.rtype_with_data.matches(qtype) {
+                        out.push(("wrong-type-in-answer", format!("{} is not of the asked type", show_rr(r))));
+                    } else if r.name != expect_owner {
+                        out.push(("final-owner", format!("{} is not owned by the final target {}", show_rr(r), show_name(&expect_owner))));
+                    } else if !world.truth.contains(&(r.name.clone(), r.rtype_with_data.clone())) {
+                        out.push(("unsound-record", format!("{} is not in the graph", show_rr(r))));
+                    }
+                }
+                let mut dedup = BTreeSet::new();
+                for r in &rrs {
+                    if !dedup.insert((r.name.clone(), r.rtype_with_data.clone())) {
+                        out.push(("repeated-record", format!("{} occurs twice", show_rr(r))));
+                    }
+                }
+                // completeness
+                if out.is_empty() && !cyclic && links.len() <= 30 {
+                    let reach = reachable_links(g, &path, mode);
+                    if chain.len() < reach {
+                        out.push((
+                            "chain-not-whole",
+                            format!(
+                                "answer {} holds {} of the {} alias links this mode can follow",
+                                show_rrs(&rrs),
+                                chain.len(),
+                                reach
+                            ),
+                        ));
+                    } else if reach == links.len() && final_reachable(g, &path, mode) && g.fin == Final::HasType {
+                        let fin_idx = *path.last().unwrap();
+                        let want: BTreeSet<_> = world
+                            .truth
+                            .iter()
+                            .filter(|(n, d)| *n == node_name(g, fin_idx) && d.rtype().matches(qtype))
+                            .cloned()
+                            .collect();
+                        let got: BTreeSet<_> = rest.iter().map(|r| (r.name.clone(), r.rtype_with_data.clone())).collect();
+                        if got != want {
+                            out.push((
+                                "final-records",
+                                format!("final records {} but the target holds {} records of the type", show_rrs(rest), want.len()),
+                            ));
+                        }
+                    }
+                }
+            }
+        }
+    }
+    (out, res, class)
+}
+
+/// How many links (from the start) the mode can follow.
+fn reachable_links(g: &Graph, path: &[usize], mode: ModeK) -> usize {
+    let n_links = path.len() - 1;
+    match mode {
+        ModeK::Recursive => n_links,
+        ModeK::Local => {
+            // stops at the first node whose data is upstream
+            path.iter().take(n_links).position(|i| g.srcs[*i] == Src::Up).unwrap_or(n_links)
+        }
+        ModeK::Forwarding => {
+            // the forwarder is trusted to complete what it starts: after the
+            // first upstream node only upstream nodes can follow
+            match path.iter().position(|i| g.srcs[*i] == Src::Up) {
+                None => n_links,
+                Some(first_up) => {
+                    let mut k = first_up;
+                    while k < n_links && g.srcs[path[k]] == Src::Up {
+                        k += 1;
+                    }
+                    if k < n_links {
+                        // the forwarder's reply ends where the chain leaves its zones
+                        k.min(n_links)
+                    } else {
+                        n_links
+                    }
+                }
+            }
+        }
+    }
+}
+
+fn final_reachable(g: &Graph, path: &[usize], mode: ModeK) -> bool {
+    let fin = *path.last().unwrap();
+    match mode {
+        ModeK::Recursive => true,
+        ModeK::Local => reachable_links(g, path, mode) == path.len() - 1 && g.srcs[fin] != Src::Up,
+        ModeK::Forwarding => {
+            if reachable_links(g, path, mode) != path.len() - 1 {
+                return false;
+            }
+            match path.iter().position(|i| g.srcs[*i] == Src::Up) {
+                None => true,
+                Some(first_up) => path[first_up..].iter().all(|i| g.srcs[*i] == Src::Up),
+            }
+        }
+    }
+}
+
+// ---------------------------------------------------------------------------
+// the space
+// ---------------------------------------------------------------------------
+
+fn graphs_for_item(tier: Tier, item: usize) -> Vec<Graph> {
+    let max_l = tier.pick(4usize, 6usize);
+    let mut out = Vec::new();
+    if item <= max_l {
+        // straight chains of `item` links: every assignment of the nodes to sources
+        let l = item;
+        let nodes = l + 1;
+        let total = 4usize.pow(nodes as u32);
+        for code in 0..total {
+            let mut srcs = Vec::with_capacity(nodes);
+            let mut c = code;
+            for _ in 0..nodes {
+                srcs.push(SRCS[c % 4]);
+                c /= 4;
+            }
+            let next: Vec<Option<usize>> = (0..nodes).map(|i| if i + 1 < nodes { Some(i + 1) } else { None }).collect();
+            for fin in [Final::HasType, Final::NoData, Final::Missing] {
+                for chase in [false, true] {
+                    if chase && !srcs.iter().any(|s| *s == Src::Up) {
+                        continue;
+                    }
+                    out.push(Graph { srcs: srcs.clone(), next: next.clone(), fin, conflicting_cache: false, chase_in_reply: chase });
+                }
+            }
+        }
+        return out;
+    }
+    match item - max_l - 1 {
+        0 => {
+            // long chains, homogeneous and two-segment source patterns
+            for l in [7usize, 16, 31, 32, 33, 40] {
+                let nodes = l + 1;
+                let next: Vec<Option<usize>> = (0..nodes).map(|i| if i + 1 < nodes { Some(i + 1) } else { None }).collect();
+                for s1 in SRCS {
+                    for s2 in SRCS {
+                        let srcs: Vec<Src> = (0..nodes).map(|i| if i < nodes / 2 { s1 } else { s2 }).collect();
+                        for chase in [false, true] {
+                            out.push(Graph { srcs: srcs.clone(), next: next.clone(), fin: Final::HasType, conflicting_cache: false, chase_in_reply: chase });
+                        }
+                    }
+                }
+            }
+        }
+        1 => {
+            // cycles: self-loop, 2-cycle, 3-cycle, tail into a cycle; every source assignment (<= 4 nodes)
+            let shapes: Vec<Vec<Option<usize>>> = vec![
+                vec![Some(0)],
+                vec![Some(1), Some(0)],
+                vec![Some(1), Some(2), Some(0)],
+                vec![Some(1), Some(1)],
+                vec![Some(1), Some(2), Some(1)],
+                vec![Some(1), Some(2), Some(3), Some(1)],
+                vec![Some(1), Some(2), Some(3), Some(2)],
+            ];
+            for next in shapes {
+                let nodes = next.len();
+                for code in 0..4usize.pow(nodes as u32) {
+                    let mut srcs = Vec::new();
+                    let mut c = code;
+                    for _ in 0..nodes {
+                        srcs.push(SRCS[c % 4]);
+                        c /= 4;
+                    }
+                    for chase in [false, true] {
+                        out.push(Graph { srcs: srcs.clone(), next: next.clone(), fin: Final::HasType, conflicting_cache: false, chase_in_reply: chase });
+                    }
+                }
+            }
+        }
+        _ => {
+            // a cached alias that disagrees with the zone / upstream alias of node 1
+            for s0 in SRCS {
+                for s1 in [Src::Auth, Src::NonAuth] {
+                    for s2 in SRCS {
+                        out.push(Graph {
+                            srcs: vec![s0, s1, s2],
+                            next: vec![Some(1), Some(2), None],
+                            fin: Final::HasType,
+                            conflicting_cache: true,
+                            chase_in_reply: false,
+                        });
+                    }
+                }
+            }
+        }
+    }
+    out
+}
+
+fn n_items(tier: Tier) -> usize {
+    tier.pick(4usize, 6usize) + 1 + 3
+}
+
+const QTYPES: [QueryType; 4] = [
+    QueryType::Record(RecordType::A),
+    QueryType::Record(RecordType::TXT),
+    QueryType::Record(RecordType::CNAME),
+    QueryType::Wildcard,
+];
+
+fn run_slice(tier: Tier, item: usize, sub: usize, nsub: usize, acc: &mut JsonAcc) {
+    let graphs = graphs_for_item(tier, item);
+    for (gi, g) in graphs.iter().enumerate() {
+        if gi % nsub != sub {
+            continue;
+        }
+        for qtype in QTYPES {
+            if !matches!(qtype, QueryType::Record(RecordType::A)) && g.srcs.len() > 5 && tier == Tier::Quick {
+                continue;
+            }
+            for mode in [ModeK::Local, ModeK::Recursive, ModeK::Forwarding] {
+                if acc.trace {
+                    acc.announce(&graph_json(g, qtype, mode));
+                }
+                let (findings, res, class) = check_graph(g, qtype, mode);
+                acc.count("executions", 1);
+                acc.count("exchanges", res.log.len() as u64);
+                acc.hist(&format!("{mode:?}: {class}"), 1);
+                let srcs: BTreeSet<String> = g.srcs.iter().map(|s| format!("{s:?}")).collect();
+                if srcs.len() >= 2 && g.srcs.len() >= 3 {
+                    acc.count("nontrivial", 1);
+                }
+                acc.states.insert(fnv64(format!("{}|{:?}|{}", g.srcs.len(), srcs, class).as_bytes()));
+                for (clause, msg) in findings {
+                    acc.violate(
+                        clause,
+                        format!(
+                            "graph srcs={:?} next={:?} final={:?} conflicting_cache={} chase={} question {} {} mode {:?}: {} :: outcome {} :: log {}",
+                            g.srcs, g.next, g.fin, g.conflicting_cache, g.chase_in_reply,
+                            show_name(&node_name(g, 0)), qtype, mode, msg,
+                            show_outcome(&res.asks[0].outcome),
+                            show_log(&res.log)
+                        ),
+                        graph_json(g, qtype, mode),
+                        None,
+                    );
+                }
+                if g.srcs.len() == 4 && srcs.len() == 4 && mode == ModeK::Recursive {
+                    acc.sample(json!({
+                        "graph": graph_json(g, qtype, mode),
+                        "outcome": show_outcome(&res.asks[0].outcome),
+                        "exchanges": show_log(&res.log),
+                    }));
+                }
+            }
+        }
+    }
+}
+
+/// Items are (graph family, sub-slice) pairs so that the big families are
+/// spread over all workers.
+const NSUB: usize = 16;
+
+pub fn run(ctx: &Ctx) -> i32 {
+    let n = n_items(ctx.tier) * NSUB;
+    let (acc, crashes) = procpar::parent(ctx, n, ctx.tier.pick(40.0, 570.0), &[]);
+    let mut report = Report::new();
+    let c = |k: &str| acc.counters.get(k).copied().unwrap_or(0);
+    report.evaluations = c("executions");
+    report.transitions = c("exchanges") + c("executions");
+    report.traces_validated = report.evaluations;
+    report.distinct_nontrivial = c("nontrivial");
+    procpar::into_report(acc, crashes, &mut report);
+    report.rule = "every straight alias chain of 0..L links with every assignment of its nodes to the four sources (authoritative zone a., non-authoritative zone data under n., cache entries under k., upstream zone u.) x final target {has the type, other type only, missing} x upstream replies {one link per reply, chained in one reply}; chains of 7/16/31/32/33/40 links (homogeneous and two-segment source patterns); every cycle shape (self, 2, 3, tail into cycle) in every source assignment; a cached alias contradicting the real one; x question types A, TXT, CNAME, ANY x modes local / recursive / forwarding; one execution = one run of dns_resolver::resolve (child process, 2 MiB stack); non-trivial = graphs of >= 3 nodes mixing >= 2 sources".into();
+    report.bounds = json!({
+        "max_exhaustive_chain_length": ctx.tier.pick(4, 6),
+        "long_chains": [7, 16, 31, 32, 33, 40],
+        "cycle_shapes": 7,
+    });
+    report.assumptions = vec![
+        "D5: CNAME/ANY questions are only checked for soundness and presence of the alias record".into(),
+        "D7: a complete correct chain longer than the limit is accepted".into(),
+        "local mode cannot follow upstream links; forwarding mode relies on the forwarder for everything after the first upstream link: completeness is only required for what the mode can reach, an error is accepted where the rest is unreachable".into(),
+    ];
+    finish(ctx, report)
+}
+
+fn replay_inner(ctx: &Ctx, v: &Value) -> i32 {
+    let (g, qtype, mode) = match graph_from_json(v) {
+        Some(x) => x,
+        None => return 2,
+    };
+    let (findings, res, class) = check_graph(&g, qtype, mode);
+    println!("graph: {}", graph_json(&g, qtype, mode));
+    println!("exchanges: {}", show_log(&res.log));
+    println!("outcome ({class}): {}", show_outcome(&res.asks[0].outcome));
+    for (c, m) in &findings {
+        println!("  finding [{c}]: {m}");
+    }
+    if findings.is_empty() {
+        println!("replay: property holds on this case");
+        0
+    } else {
+        println!("VIOLATION property={} replay=(replayed case)", ctx.id);
+        1
+    }
+}
+
+pub fn replay(ctx: &Ctx, v: &Value) -> i32 {
+    procpar::replay_in_child(ctx, v)
+}
+
+pub fn worker(args: &[String]) -> i32 {
+    if let Some(v) = procpar::replay_arg(args) {
+        let ctx = Ctx {
+            id: "C10",
+            tier: Tier::Quick,
+            seed: 0,
+            start: std::time::Instant::now(),
+            threads: 1,
+        };
+        return replay_inner(&ctx, &v);
+    }
+    procpar::child_main(args, move |tier, i, acc| run_slice(tier, i / NSUB, i % NSUB, NSUB, acc))
 }
